@@ -32,7 +32,10 @@ MANIFEST = {
             'the threshold in force, and the coalition {0,1} must not recover the is_zero_public secret from its own shares of r. Shares '
             'received: thresha.random_split / np_random_split (the dealing behind input() and _reshare(), call sites read from the source) '
             'on GF(5,7,11,13) m=3 t=1 and GF(7) m=5 t=2 with the randomness oracle enumerated exhaustively: the exact view distribution of '
-            'every coalition of <= t parties must be uniform and identical for all secrets.',
+            'every coalition of <= t parties must be uniform and identical for all secrets. The uniform low part of _mod\'s mask (r_modb = '
+            'random._randbelow): the restart statement after a public rejection is translated from the source and must equal the model\'s '
+            '(keep x[:i], draw k-i bits; uniformity of that model is C33), and the exact output distribution of the real _randbelow for '
+            'b = 3,5,6,7 over all bit tapes up to 12 bits must be uniform.',
     'note': 'Per-opening bounds are proved; composition across a whole adaptive program is the union bound over openings, stated not '
             'mechanised. PRF (SHAKE-128) outputs and `secrets` draws being uniform and independent are oracle assumptions; that a '
             'coalition of <= t parties misses one PRSS key / one of the t+1 dealers is taken from C16, not re-proved. Row obligations '
@@ -911,6 +914,75 @@ def dealing_call_sites(repo):
     return {k: sorted(v) for k, v in res.items()}
 
 
+# ------------------------------------------------------------------------------------------------
+# the low part of _mod's mask, r_modb = _randbelow(stype, b), must be uniform on [0, b): exact output distribution of
+# the real mpyc.random._randbelow at m = 1 with the bit source replaced by an enumerating oracle (all tapes)
+
+def worker_randbelow(cfg):
+    import itertools
+    from fractions import Fraction
+    argv, sys.argv = sys.argv, ['c18-randbelow', '--no-log']
+    try:
+        from mpyc.runtime import mpc
+        import mpyc.random as R
+    finally:
+        sys.argv = argv
+
+    class NeedBits(Exception):
+        def __init__(self, total):
+            self.total = total
+
+    class Proxy:
+        def __init__(self, rt, tape):
+            self.__dict__.update(_rt=rt, tape=list(tape), pos=0)
+
+        def __getattr__(self, name):
+            return getattr(self._rt, name)
+
+        def random_bits(self, sectype, n, signed=False):
+            if self.pos + n > len(self.tape):
+                raise NeedBits(self.pos + n)
+            bits = self.tape[self.pos:self.pos + n]
+            self.__dict__['pos'] += n
+            return [sectype(b) for b in bits]
+
+    secint = mpc.SecInt(16)
+    real = R.runtime
+    out = {'results': []}
+    try:
+        for b in cfg['moduli']:
+            L = cfg['max_bits']
+            mass = {}
+            cut = Fraction(0)
+            leaves = 0
+            stack = [()]
+            while stack:
+                tp = stack.pop()
+                R.runtime = Proxy(mpc, tp)
+                try:
+                    bits = mpc.run(mpc.output(R._randbelow(secint, b, bits=True)))
+                    v = sum(int(x) << i for i, x in enumerate(bits))
+                    used = R.runtime.pos
+                    mass[v] = mass.get(v, 0) + Fraction(1, 2 ** used)
+                    leaves += 1
+                    if used != len(tp):
+                        raise RuntimeError('tape not consumed exactly')
+                except NeedBits as e:
+                    if e.total > L:
+                        cut += Fraction(1, 2 ** len(tp))
+                        continue
+                    for ext in itertools.product((0, 1), repeat=e.total - len(tp)):
+                        stack.append(tp + ext)
+            vals = [mass.get(v, Fraction(0)) for v in range(b)]
+            out['results'].append({'b': b, 'max_bits': L, 'leaves': leaves, 'out_of_range': sorted(v for v in mass if not 0 <= v < b),
+                                   'mass': [str(x) for x in vals], 'cut_mass': str(cut), 'total_is_one': sum(mass.values()) + cut == 1,
+                                   'spread': str(max(vals) - min(vals)), 'uniform_up_to_cut': max(vals) - min(vals) <= cut,
+                                   'exactly_equal': len(set(vals)) == 1})
+    finally:
+        R.runtime = real
+    return out
+
+
 def spawn(cfg, python, timeout=600):
     env = dict(os.environ)
     repo = os.environ.get('MPYC_REPO', '/repo')
@@ -955,7 +1027,13 @@ def run(ctx):
     prows, perrors = G.product_rows(REPO)
     errors = errors + perrors
     table = os.path.join(COQ, 'gen', 'MaskTable.v')
-    G.emit(rows, errors, table, prows)
+    try:
+        restart = G.randbelow_restart(REPO)
+    except G.Unclassified as exc:
+        restart = None
+        errors.append({'site': 'random._randbelow', 'line': None, 'error': str(exc)})
+    G.emit(rows, errors, table, prows, restart)
+    ctx.extra['randbelow_restart'] = {'offsets': list(restart[0]), 'statement': restart[1]} if restart else None
     ctx.extra['product_table'] = [{k: r[k] for k in ('site', 'opened', 'threshold', 'rerand', 'conditions')} for r in prows]
     ctx.log('product openings (threshold kwarg): %s' % {r['site']: r['rerand'] for r in prows})
     kinds = {}
@@ -974,12 +1052,16 @@ def run(ctx):
     # 3. one compiled obligation per row: numeric rows one file each (in parallel), the others in one file
     failing = {}
     failing_prod = []
+    failing_restart = []
     if ok:
         os.makedirs(os.path.join(COQ, 'cases'), exist_ok=True)
         HEAD = ('From Coq Require Import ZArith List Bool String.\nRequire Import MPyC.Stat MPyCGen.MaskTable.\n'
                 'Import ListNotations.\n')
 
         def thm(r):
+            if 'restart' in r:
+                return ('Theorem randbelow_restart_matches_model : randbelow_restart_ok randbelow_restart_src = true.\n'
+                        'Proof. vm_cast_no_check (eq_refl true). Qed.\nPrint Assumptions randbelow_restart_matches_model.\n')
             if 'rerand' in r:
                 pid_ = G.coq_pident(r['site'])
                 return ('Theorem prod_ok_%s : prow_ok %s = true.\nProof. vm_cast_no_check (eq_refl true). Qed.\n'
@@ -1010,6 +1092,8 @@ def run(ctx):
         ngroups = 6
         groups = [numeric[i::ngroups] for i in range(ngroups)]
         groups = [g for g in groups if g] + ([others] if others else []) + ([list(prows)] if prows else [])
+        if restart:
+            groups.append([{'restart': True, 'site': 'random._randbelow/restart', 'offsets': restart[0], 'statement': restart[1]}])
 
         def compile_group(gi_rs):
             """Theorems are compiled in order; the one after the last `Closed under` output is the failing one:
@@ -1040,7 +1124,8 @@ def run(ctx):
                 ctx.theorems.append(('mask_ok[%s]' % r['site'], 'Closed under the global context'))
             bad_rows += bad
         failing_prod = [r for r, _ in bad_rows if 'rerand' in r]
-        bad_rows = [(r, tl) for r, tl in bad_rows if 'rerand' not in r]
+        failing_restart = [r for r, _ in bad_rows if 'restart' in r]
+        bad_rows = [(r, tl) for r, tl in bad_rows if 'rerand' not in r and 'restart' not in r]
         if bad_rows:
             wits = ctx.coq_eval(['MPyC.Stat', 'MPyCGen.MaskTable'],
                                 ['first_fail %s' % G.coq_ident(r['site']) for r, _ in bad_rows], chunk=1)
@@ -1076,9 +1161,25 @@ def run(ctx):
     with ThreadPoolExecutor(max_workers=8) as ex:
         fut_t = [ex.submit(spawn, c, python) for c in tcfgs]
         fut_x = ex.submit(spawn, xcfg, python)
+        fut_rb = ex.submit(spawn, dict(mode='randbelow', moduli=[3, 5, 6, 7] + ([9, 10, 11, 12] if ctx.tier == 'thorough' else []),
+                                       max_bits=ctx.n(12, 14)), python)
         outs = list(ex.map(lambda c: spawn(c, python), configs))
         touts = [f.result() for f in fut_t]
         xout = fut_x.result()
+        rbout = fut_rb.result()
+    # r_modb = _randbelow(stype, b) inside _mod must be uniform on [0, b): exact output distribution over all bit tapes
+    rb_bad = []
+    if 'error' in rbout:
+        ctx.broken.append({'kind': 'randbelow-exact', 'detail': rbout['error']})
+    else:
+        for r in rbout['results']:
+            ctx.case({'randbelow_exact': {'b': r['b'], 'max_bits': r['max_bits']}}, nontrivial=True, kind='exact _randbelow distribution')
+            if r['out_of_range'] or not r['total_is_one'] or not r['uniform_up_to_cut']:
+                rb_bad.append(r)
+        ctx.extra['randbelow_exact'] = [{k: r[k] for k in ('b', 'max_bits', 'leaves', 'mass', 'cut_mass', 'exactly_equal')} for r in rbout['results']]
+        ctx.log('exact distribution of _randbelow(stype, b) over all bit tapes up to %d bits: %s' % (
+            rbout['results'][0]['max_bits'] if rbout['results'] else 0,
+            ', '.join('b=%d %s' % (r['b'], 'uniform' if r['exactly_equal'] else 'NOT uniform ' + str(r['mass'])) for r in rbout['results'])))
     # shares received: exact view distributions of the dealing function behind input() and _reshare()
     dealers_src = dealing_call_sites(REPO)
     ctx.extra['dealing_call_sites'] = dealers_src
@@ -1262,6 +1363,24 @@ def run(ctx):
             ctx.case({'product_opening': func, 'what': what, 'sites': [r['site'] for r in rs]}, nontrivial=True, kind='product-opening')
             ctx.violation('%s site=%s' % (what, func), detail, found_input=found)
 
+    # 7. the uniform low part of _mod's mask
+    if failing_restart or rb_bad:
+        from fractions import Fraction
+        detail = {'site': 'runtime._mod#0', 'mask_low_part': 'r_modb = self.random._randbelow(stype, b, bits=True)',
+                  'restart_statement': restart[1] if restart else None, 'restart_offsets_source_vs_model': [list(restart[0]) if restart else None, [0, 0]],
+                  'exact_distribution_of_randbelow': [{k: r[k] for k in ('b', 'mass', 'cut_mass', 'spread')} for r in rb_bad]}
+        if rb_bad:
+            r = rb_bad[0]
+            ms = [Fraction(x) for x in r['mass']]
+            tot = sum(ms)
+            b = r['b']
+            detail['failing_input'] = {
+                'b': b, 'secrets': [0, 1], 'why': 'c mod b = (a - r_modb) mod b is opened inside _mod',
+                'P(c mod b = j | a = 0)': [str(ms[(-j) % b] / tot) for j in range(b)],
+                'P(c mod b = j | a = 1)': [str(ms[(1 - j) % b] / tot) for j in range(b)]}
+        ctx.log('FAILING: _mod mask low part not uniform: restart %s; %s' % (restart, json.dumps(detail.get('failing_input'))[:400]))
+        ctx.violation('mask-low-part-not-uniform site=_mod via=_randbelow', detail, found_input=bool(rb_bad))
+
     if ctx.broken and not ctx.violations:
         ctx.unproved('C18 table/correspondence', {'broken': ctx.broken[:6]})
     elif ctx.broken:
@@ -1337,5 +1456,5 @@ def search(sc, python, ctx, reps=30):
 if __name__ == '__main__':
     if '--worker' in sys.argv:
         cfg = json.loads(sys.stdin.read())
-        r = {'product': worker_product, 'tchange': worker_tchange, 'exact': worker_exact}.get(cfg.get('mode'), worker)(cfg)
+        r = {'product': worker_product, 'tchange': worker_tchange, 'exact': worker_exact, 'randbelow': worker_randbelow}.get(cfg.get('mode'), worker)(cfg)
         print('RESULT ' + json.dumps(r, default=str))
